@@ -24,6 +24,11 @@ pub fn split(s: &str) -> Vec<String> {
 }
 
 pub fn ident(rng: &mut Rng) -> String {
+    if rng.chance(1, 120) {
+        // scale: a name far longer than any buffer a reader might keep for one
+        let base = *rng.pick(ORDINARY_NAMES);
+        return format!("{}_{}", base, "x".repeat(*rng.pick(&[70usize, 300, 5000])));
+    }
     if rng.chance(1, 3) {
         (*rng.pick(NEAR_KEYWORD_NAMES)).to_owned()
     } else {
@@ -66,6 +71,18 @@ impl TypePool {
 }
 
 pub fn gen_ty(rng: &mut Rng, depth: usize, pool: &TypePool, allow_void: bool) -> TyDoc {
+    // scale: now and then a tower of generic types much deeper than usual
+    if depth >= 2 && rng.chance(1, 150) {
+        let mut t = gen_ty(rng, 0, pool, false);
+        for _ in 0..rng.range(5, 12) {
+            t = match rng.below(3) {
+                0 => TyDoc::Array(Box::new(t)),
+                1 => TyDoc::List(Some(Box::new(t))),
+                _ => TyDoc::Map(Some((Box::new(TyDoc::Str), Box::new(t)))),
+            };
+        }
+        return t;
+    }
     let leaf = depth == 0 || rng.chance(1, 2);
     if leaf {
         match rng.below(if allow_void { 10 } else { 9 }) {
@@ -186,7 +203,8 @@ pub fn gen_arg(rng: &mut Rng, cfg: &DocCfg, pool: &TypePool) -> ArgDoc {
 }
 
 pub fn gen_method(rng: &mut Rng, cfg: &DocCfg, pool: &TypePool) -> MethodDoc {
-    let nargs = rng.below(4);
+    // scale: now and then more arguments than any fixed-width mask or small vector holds
+    let nargs = if rng.chance(1, 40) { rng.range(30, 70) } else { rng.below(4) };
     MethodDoc {
         doc: if cfg.docs { gen_doc_comment(rng) } else { None },
         annotations: if cfg.anns { gen_anns(rng) } else { vec![] },
@@ -198,7 +216,7 @@ pub fn gen_method(rng: &mut Rng, cfg: &DocCfg, pool: &TypePool) -> MethodDoc {
         code: match rng.below(16) {
             0 | 1 => Some(format!("{}", rng.below(4))),
             2 | 3 => Some(format!("00{}", rng.below(4))),
-            4 => Some("4294967295".into()),
+            4 => Some((*rng.pick(&["4294967295", "16777214", "16777215", "16777216", "65535", "65536", "2147483647", "2147483648"])).to_owned()),
             // does not fit u32: reported with an Error of its own, the method stays (code absent)
             5 => Some((*rng.pick(&["4294967296", "99999999999", "18446744073709551616"])).to_owned()),
             _ => None,
@@ -236,7 +254,8 @@ pub fn gen_enumel(rng: &mut Rng, cfg: &DocCfg) -> EnumElDoc {
 }
 
 pub fn gen_item(rng: &mut Rng, cfg: &DocCfg, pool: &TypePool, kind: ItemKind, name: &str) -> ItemDoc {
-    let n = rng.below(cfg.max_members + 1);
+    // scale: now and then far more members than usual (thresholds such as 16 / 20 / 32 / 64 entries)
+    let n = if cfg.max_members >= 3 && rng.chance(1, 30) { rng.range(18, 70) } else { rng.below(cfg.max_members + 1) };
     let members = (0..n)
         .map(|_| match kind {
             ItemKind::Interface => {
@@ -324,7 +343,8 @@ pub fn gen_decl(rng: &mut Rng, cfg: &DocCfg) -> DeclDoc {
 
 /// A multi-file project with adversarial naming relations; returns (id, doc)
 pub fn gen_project(rng: &mut Rng, cfg: &DocCfg) -> Vec<(String, Doc)> {
-    let nfiles = rng.range(1, 6);
+    // scale: now and then many files
+    let nfiles = if rng.chance(1, 25) { rng.range(12, 40) } else { rng.range(1, 6) };
     // headers first (package, item name, kind), so imports can target them
     let mut headers: Vec<(Vec<String>, String, ItemKind)> = Vec::new();
     for _ in 0..nfiles {
@@ -345,7 +365,8 @@ pub fn gen_project(rng: &mut Rng, cfg: &DocCfg) -> Vec<(String, Doc)> {
     let pool = TypePool::default_pool();
     let mut out = Vec::new();
     for (i, (pkg, name, kind)) in headers.iter().enumerate() {
-        let nimp = rng.below(6);
+        // scale: now and then many imports (most of them used by the members below)
+        let nimp = if rng.chance(1, 12) { rng.range(17, 45) } else { rng.below(6) };
         let mut imports: Vec<Vec<String>> = (0..nimp).map(|_| gen_import(rng, &keys)).collect();
         if !imports.is_empty() && rng.chance(1, 4) {
             // duplicate an import
@@ -400,7 +421,10 @@ pub fn gen_project(rng: &mut Rng, cfg: &DocCfg) -> Vec<(String, Doc)> {
         for _ in 0..(fpool.customs.len() / 2 + 3) {
             fpool.customs.push(rng.pick(&pool.customs).clone());
         }
-        let doc = Doc { package: pkg.clone(), imports, decls, item: gen_item(rng, cfg, &fpool, *kind, name) };
+        // many imports come with many members, so that most imports are referenced, some of them repeatedly
+        let big_cfg = DocCfg { max_depth: cfg.max_depth, max_members: 60, docs: cfg.docs, anns: cfg.anns };
+        let item_cfg = if nimp >= 17 { &big_cfg } else { cfg };
+        let doc = Doc { package: pkg.clone(), imports, decls, item: gen_item(rng, item_cfg, &fpool, *kind, name) };
         out.push((format!("f{}", i), doc));
     }
     out
